@@ -366,21 +366,20 @@ class C01(Sim):
             return
         cfg = self.cfg
         # (a) same queries, fresh instance, independently drawn order
-        order = list(self.judged)
-        Rng(h64(cfg["seed"], "reorder", len(order))).shuffle(order)
+        # the independent order is a per-event hash order: removing events (minimisation) keeps the relative order of the others
+        order = sorted(self.judged, key=lambda e: h64(cfg["seed"], "reorder", e["uid"]))
         fresh = build_mesh(cfg["world"])
         self.probes["reordered_pass"] += 1
         for ev in order:
             self.run_query(fresh, ev, "order-independence/")
         # (b) a sample of the queries, each ALONE on a freshly built mesh
-        r = Rng(h64(cfg["seed"], "fresh", len(order)))
         seen = set()
         cands = []
         for ev in self.judged:
             if ev["op"] not in seen:
                 seen.add(ev["op"])
                 cands.append(ev)
-        r.shuffle(cands)
+        cands.sort(key=lambda e: h64(cfg["seed"], "fresh", e["uid"]))
         for ev in cands[:cfg["n_fresh"]]:
             m = build_mesh(cfg["world"])
             self.probes["fresh_single_query"] += 1
